@@ -216,6 +216,9 @@ fn main() {
     let mut nosettle = json!(null);
     if ctx.tier == Tier::Thorough {
         let mut runs = 0u64;
+        let mut planned = 0u64;
+        // the pass has a wall budget of its own, counted from its start
+        let ns_deadline = ctx.elapsed() + 1500.0;
         let started_total = std::sync::atomic::AtomicU64::new(0);
         for mode in modes {
             for kinds in [vec![Kind::Gate], vec![Kind::GateDrop], vec![Kind::Gate, Kind::Gate]] {
@@ -227,12 +230,13 @@ fn main() {
                 }
                 let (hist, _) = all_paths(&cfg, 20000);
                 let counter = std::sync::atomic::AtomicU64::new(0);
+                planned += 2 * hist.len() as u64;
                 let started = &started_total;
                 par_for(hist.len(), 8, ctx.seed, |i| {
-                    if ctx.elapsed() > budget + 300.0 {
-                        return;
-                    }
                     for gap_ms in [0u64, 3] {
+                        if ctx.elapsed() > ns_deadline {
+                            return;
+                        }
                         let o = run_history_nosettle(&cfg, &hist[i], std::time::Duration::from_millis(gap_ms));
                         counter.fetch_add(1, std::sync::atomic::Ordering::Relaxed);
                         if o.trace.iter().any(|t| t["nosettle_board"].as_array().map(|b| !b.is_empty()).unwrap_or(false)) {
@@ -251,7 +255,10 @@ fn main() {
                 runs += counter.load(std::sync::atomic::Ordering::Relaxed);
             }
         }
-        nosettle = json!({"runs": runs, "runs_in_which_a_handler_started": started_total.load(std::sync::atomic::Ordering::Relaxed), "gaps_ms": [0, 3], "note": "events fired with a fixed gap and no confirmation; only schedule-independent safety invariants are judged; not exhaustive over schedules"});
+        if runs < planned {
+            caps.push(format!("no-settle pass: {runs} of {planned} planned runs executed (its own wall budget of 1500 s)"));
+        }
+        nosettle = json!({"runs": runs, "planned_runs": planned, "runs_in_which_a_handler_started": started_total.load(std::sync::atomic::Ordering::Relaxed), "gaps_ms": [0, 3], "note": "events fired with a fixed gap and no confirmation; only schedule-independent safety invariants are judged; not exhaustive over schedules"});
     }
     let h2 = if only_nosettle { json!(null) } else if !c17 { vh::h2slice::run(&ctx, &samples) } else { vh::tlsslice::run_c17(&ctx, &samples) };
     let tls_slice = if !c17 && !only_nosettle { vh::tlsslice::run_c16(&ctx, &samples) } else { json!(null) };
